@@ -42,6 +42,55 @@ def repo_compile_lines(repo):
     return lines
 
 
+def examples_compile_lines(repo):
+    out = subprocess.run(["make", "-n", "-B", "-C", os.path.join(repo, "examples"), "all", "DEPS="], capture_output=True, text=True, check=True).stdout
+    lines = []
+    for ln in out.splitlines():
+        toks = shlex.split(ln)
+        if len(toks) > 3 and "-c" in toks and toks[-1].endswith(".c"):
+            src = toks[-1]
+            obj = toks[toks.index("-o") + 1] if "-o" in toks else src[:-2] + ".o"
+            flags = [t for i, t in enumerate(toks[1:-1], 1) if t not in ("-c", "-o") and toks[i - 1] != "-o"]
+            lines.append((src, obj, flags))
+    if not lines:
+        raise SystemExit("buildlib: could not parse compile lines of examples/")
+    return lines
+
+
+def build_tools(repo, outdir):
+    """examples/*.c with the repository's flags; main renamed per tool, fopen redirected to the simulated file layer"""
+    h = hashlib.sha256()
+    for fn in sorted(os.listdir(os.path.join(repo, "examples"))):
+        if fn.endswith((".c", ".h")) or fn == "Makefile":
+            h.update(fn.encode()); h.update(open(os.path.join(repo, "examples", fn), "rb").read())
+    for fn in sorted(os.listdir(os.path.join(repo, "include"))):
+        h.update(open(os.path.join(repo, "include", fn), "rb").read())
+    h.update(open(__file__, "rb").read())
+    key = h.hexdigest()
+    os.makedirs(outdir, exist_ok=True)
+    stamp = os.path.join(outdir, "STAMP")
+    lines = examples_compile_lines(repo)
+    objs = [os.path.join(outdir, o) for _, o, _ in lines]
+    if os.path.exists(stamp) and open(stamp).read().strip() == key and all(os.path.exists(o) for o in objs):
+        print("\n".join(objs)); return
+    if os.path.exists(stamp):
+        os.unlink(stamp)
+    for src, obj, flags in lines:
+        f = [x for x in flags if x not in ("-Wall", "-Wextra")] + ["-w"]
+        name = src[:-2].replace("-", "_")
+        if src != "options.c":
+            f.append("-Dmain=tool_main_" + name)
+        p = subprocess.run(["gcc"] + f + ["-c", "-o", os.path.join(outdir, obj), os.path.join(repo, "examples", src)], capture_output=True, text=True, cwd=os.path.join(repo, "examples"))
+        if p.returncode != 0:
+            sys.stderr.write(p.stderr); raise SystemExit(3)
+        rd = []
+        for sname in ("fopen", "fopen64", "freopen", "open", "creat"):
+            rd += ["--redefine-sym", "%s=simfs_%s" % (sname, sname)]
+        subprocess.run(["objcopy"] + rd + [os.path.join(outdir, obj)], check=True)
+    open(stamp, "w").write(key + "\n")
+    print("\n".join(objs))
+
+
 def tree_hash(repo, extra):
     h = hashlib.sha256()
     h.update(extra.encode())
@@ -99,7 +148,11 @@ def main():
     ap.add_argument("--no-redirect", action="store_true")
     a = ap.parse_args()
 
+    a.outdir = os.path.abspath(a.outdir)
     fl = a.flavour
+    if fl == "tools":
+        build_tools(a.repo, a.outdir)
+        return
     variant = ""
     if fl.startswith("tsanhook_"):
         fl, variant = "tsanhook", fl.split("_", 1)[1]
